@@ -350,7 +350,7 @@ func tryBuildLimit(c LimitCfg, reg core.MetricRegistry) (built, error) {
 		outer = tap
 	}
 	if c.Windowed {
-		w, err := limit.NewWindowedLimit("w", c.WinMin, c.WinMax, c.WinSize, c.WinThreshold, outer, nil)
+		w, err := limit.NewWindowedLimit("w", c.WinMin, c.WinMax, c.WinSize, c.WinThreshold, outer, reg)
 		if err != nil {
 			panic(err)
 		}
@@ -365,7 +365,7 @@ func tryBuildLimit(c LimitCfg, reg core.MetricRegistry) (built, error) {
 	}
 	switch c.Outer2 {
 	case "windowed":
-		w, err := limit.NewWindowedLimit("w2", c.Win2Min, c.Win2Max, c.Win2Size, c.Win2Threshold, outer, nil)
+		w, err := limit.NewWindowedLimit("w2", c.Win2Min, c.Win2Max, c.Win2Size, c.Win2Threshold, outer, reg)
 		if err != nil {
 			panic(err)
 		}
